@@ -1,4 +1,4 @@
-package main
+package gen2
 
 import (
 	"context"
@@ -18,7 +18,6 @@ type pair struct {
 	C    *string
 }
 
-var pairRequired = restlicodec.NewRequiredFields().Add("a", "b")
 
 func (p *pair) NewInstance() *pair { return new(pair) }
 func (p *pair) MarshalRestLi(w restlicodec.Writer) error {
@@ -52,7 +51,7 @@ func (h hostResolver) ResolveHostnameAndContextForQuery(string, *url.URL) (*url.
 }
 
 // lenient: a lenient client receives the partially filled value with no error; a strict client the error.
-func lenient(run *ev.Run) {
+func Lenient(run *ev.Run) {
 	ln, err := net.Listen("tcp", "127.0.0.1:0")
 	if err != nil {
 		run.Inconclusive("listen: " + err.Error())
@@ -93,14 +92,14 @@ func lenient(run *ev.Run) {
 			mf, isMissing := err.(*restlicodec.MissingRequiredFieldsError)
 			switch {
 			case !strict && err != nil:
-				run.Violation("v2/client/lenient-client-returned-error", desc)
+				run.Violation(GENERATION+"/client/lenient-client-returned-error", desc)
 			case strict && len(c.missing) == 0 && err != nil:
-				run.Violation("v2/client/strict-client-error-on-complete-response", desc)
+				run.Violation(GENERATION+"/client/strict-client-error-on-complete-response", desc)
 			case strict && len(c.missing) > 0 && (!isMissing || len(mf.Fields) != len(c.missing)):
-				run.Violation("v2/client/strict-client-did-not-report-missing-fields", desc)
+				run.Violation(GENERATION+"/client/strict-client-did-not-report-missing-fields", desc)
 			case v == nil || v.A != c.a || v.B != c.b:
 				desc["value"] = v
-				run.Violation("v2/client/partially-filled-value-lost", desc)
+				run.Violation(GENERATION+"/client/partially-filled-value-lost", desc)
 			default:
 				run.Distinct("client|" + c.body + "|" + map[bool]string{true: "strict", false: "lenient"}[strict])
 			}
